@@ -29,6 +29,8 @@ RULE = (
     "preserved by parsing and received unchanged by the called function at materialization; "
     "(a') each of the 29 characters matched by \\s in the BMP alone at each boundary (and at all) of 13 sentences; (b'') 22 "
     "names that read like numeric literals in all seven forms, parsed and materialized without implicit intercept; "
+    "(b3) 11 names made of / containing dots; (c3) every string literal of up to 2 (thorough 3) atoms as an argument inside "
+    "stateful calls (center, scale, bs, C/Treatment), parsed, evaluated and re-applied through the fitted spec; "
     "(d) every string of C14's character enumerations that tokenizes.  Non-trivial = a variant that differs from the "
     "baseline rendering (a, c), a name containing a non-word character (b), a string with >= 2 tokens (d)."
 )
@@ -638,7 +640,7 @@ LIT_TEMPLATES = [
 
 
 #  stateful callees: the literal travels through the generated code that threads transform state
-STATEFUL_TEMPLATES = ["center(lab(x, %s))", "scale(lab(x, %s))", "bs(lab(x, %s), df=4)", "C(g, Treatment(%s))", "{center(lab(x, %s)) + 1}",
+STATEFUL_TEMPLATES = ["center(lab(x, %s))", "scale(lab(x, %s))", "bs(lab(x, %s), df=4, extrapolation='clip')", "C(g, Treatment(%s))", "{center(lab(x, %s)) + 1}",
                       "center(lab(`a b`, %s))"]
 
 
